@@ -64,7 +64,7 @@ Definition t_map_slot (slot : bool) (f : item -> item) (x : dev) : dev :=
 Definition t_set_cycle (z : Z) (x : dev) : dev := x <| d_cycle := z |>.
 Definition t_add_offset (z : Z) (x : dev) : dev := x <| d_offset ::= Z.add z |>.
 Definition t_reset_offset (x : dev) : dev := x <| d_offset := 0 |>.
-Definition t_generated (it : item) (x : dev) : dev := x <| d_gen_count ::= Z.add 1 |> <| d_out := Some it |>.
+Definition t_generated (it : item) (x : dev) : dev := x <| d_gen_count ::= Z.add 1 |> <| d_out := Some it |> <| d_made ::= fun l => l ++ item_leaves it |>.
 Definition t_finish (it : item) (x : dev) : dev := x <| d_out := Some it |> <| d_part := None |>.
 Definition t_stop_use (nw : Z) (x : dev) : dev :=
   x <| d_inuse ::= Z.add (nw - match d_last_use x with Some t => t | None => nw end) |> <| d_last_use := None |>.
@@ -72,7 +72,7 @@ Definition t_stop_use (nw : Z) (x : dev) : dev :=
 Definition t_finish_proc (nw : Z) (it : item) (x : dev) : dev := t_stop_use nw (t_finish it x).
 (** PartProcessor._fail: the part in process is dropped; the utilisation clock stops at this instant
     (in the code _shutdown does that a few lines later, at the same time) *)
-Definition t_fail_clear (nw : Z) (x : dev) : dev := t_stop_use nw (x <| d_part := None |>).
+Definition t_fail_clear (nw : Z) (x : dev) : dev := t_stop_use nw (x <| d_part := None |> <| d_lost ::= fun l => l ++ opt_leaves (d_part x) |>).
 Definition t_clear_out (x : dev) : dev := x <| d_out := None |>.
 Definition t_clear_part (x : dev) : dev := x <| d_part := None |>.
 Definition t_batch_single (rest : option item) (p : part) (x : dev) : dev := x <| d_part := rest |> <| d_out := Some (ISingle p) |>.
@@ -90,7 +90,8 @@ Definition t_accept_buffer (nw : Z) (it : item) (x : dev) : dev := (t_accept nw 
 Definition t_accept_sink (nw : Z) (it : item) (x : dev) : dev :=
   let y := t_accept nw it x in
   dev_add_value nw 1 (item_value it) (y <| d_received ::= Z.add (item_count it) |> <| d_value_received ::= Z.add (item_value it) |>)
-    <| d_collected ::= fun l => if d_collect x then l ++ [it] else l |>.
+    <| d_collected ::= fun l => if d_collect x then l ++ [it] else l |>
+    <| d_delivered ::= fun l => l ++ item_leaves it |>.
 Definition t_buf_store (nw : Z) (it : item) (x : dev) : dev := x <| d_buf ::= fun b => b ++ [(nw, it)] |> <| d_part := None |>.
 (** `self._level -= part_count; self._buffer.pop(0)` after a successful hand-over of the head.  The head
     cannot change while it is being offered (hand-overs only append at the back), so it is re-read here,
@@ -338,13 +339,17 @@ Fixpoint batcher_fill (n : nat) (w : fw) (d : Z) : fw :=
         let w2 := match d_batch_size x with
                   | None => updd w d (t_batch_single rest p)
                   | Some size =>
-                    let '(w1', b, ps) := match d_inprog x with
-                                         | Some (IBatch b ps) => (w, b, ps)
-                                         | _ => let id := f_next_id w + 1 in (w <| f_next_id := id |>, mkPart id 0 0 [] [], [])
-                                         end in
-                    let ps' := ps ++ [p] in
-                    if size <=? Z.of_nat (length ps') then updd w1' d (t_batch_full rest b ps')
-                    else updd w1' d (t_batch_more rest b ps')
+                    match d_inprog x with
+                    | Some (ISingle _) => w     (* not a state of the Python object: _in_progress_batch is None or a Batch *)
+                    | inp =>
+                      let '(w1', b, ps) := match inp with
+                                           | Some (IBatch b ps) => (w, b, ps)
+                                           | _ => let id := f_next_id w + 1 in (w <| f_next_id := id |>, mkPart id 0 0 [] [], [])
+                                           end in
+                      let ps' := ps ++ [p] in
+                      if size <=? Z.of_nat (length ps') then updd w1' d (t_batch_full rest b ps')
+                      else updd w1' d (t_batch_more rest b ps')
+                    end
                   end in
         batcher_fill n' w2 d
       end
